@@ -74,6 +74,9 @@ def templates(cls):
                                 {"A": T(N[1]), "C": ["cte", N[0]]})
     t["create"] = lambda N: q([["create_table", [["py", N[0]]]], ["columns", [["py", N[1]], ["pytuple", [["py", N[2]], ["py", "INT"]]], ["column", N[3], "INT", True, ["raw", 5]]]],
                                ["unique", [["py", N[1]], ["py", N[2]]]], ["primary_key", [["py", N[3]]]], ["period_for", [["py", N[4]], ["py", N[1]], ["py", N[2]]]]], {})
+    # constraints given the other documented forms of a column: a (name, type) pair and a Column object
+    t["create_constraint_forms"] = lambda N: q([["create_table", [["py", N[0]]]], ["columns", [["pytuple", [["py", N[1]], ["py", "INT"]]], ["pytuple", [["py", N[2]], ["py", "INT"]]], ["py", N[3]]]],
+                                                ["unique", [["pytuple", [["py", N[1]], ["py", "INT"]]], ["column", N[2], "INT", True, None]]], ["primary_key", [["pytuple", [["py", N[3]], ["py", "INT"]]]]]], {})
     t["create_make_columns"] = lambda N: q([["create_table", [["py", N[0]]]], ["columns", [["mkcols", [["py", N[1]], ["pytuple", [["py", N[2]], ["py", "INT"]]], ["py", N[3]]]]]]], {})
     t["insert_columns_list"] = lambda N: q([["into", [["src", "A"]]], ["columns", [["pylist", [["py", N[1]], ["py", N[2]]]]]], ["insert", [["raw", 1], ["raw", 2]]]], {"A": T(N[0])})
     t["function_schema"] = lambda N: q([["from_", [["src", "A"]]], ["select", [["as", ["cfn", "fnx", [["col", "A", N[1]]], {"schema": N[2]}], N[3]]]]], {"A": T(N[0])})
